@@ -356,6 +356,67 @@ FROMNAME = r"""
         let again = got.self_signed(&key).unwrap();
         let _ = again;
     } }
+    // (3) a multi-valued RDN (O=multi, CN=a + OU=b; generated by OpenSSL) cannot be represented: import must fail, not drop attributes
+    let multi = unhex("308201a130820147a00302010202144c7c46e7a9b4eeacabdbd94515a6940d676de429300a06082a8648ce3d0403023026310e300c060355040a0c056d756c74693114300806035504030c01613008060355040b0c0162301e170d3236313030343039353733345a170d3436303932393039353733345a3026310e300c060355040a0c056d756c74693114300806035504030c01613008060355040b0c01623059301306072a8648ce3d020106082a8648ce3d030107034200042db3087cd623fb841728d86714a060866404cae1c386e4d85609835379190f3d0139c9f182590ad4c04aaa2cd16033ede44ac339a43abbd14c5389fc56936dd9a3533051301d0603551d0e0416041472e80e58c8957f1533cd1f16ee0a38f1744c716d301f0603551d2304183016801472e80e58c8957f1533cd1f16ee0a38f1744c716d300f0603551d130101ff040530030101ff300a06082a8648ce3d0403020348003045022100cca0b2591c789306b86acece0debc054e4bf5eed3038f25b73ba6c7046e4ac94022053675f059349cbe646aefa50df09f148925ea908bee65c4707ec0dc83493fe98");
+    assert!(CertificateParams::from_ca_cert_der(&multi.as_slice().into()).is_err(), "a name with a multi-valued RDN is imported (attributes dropped) instead of refused");
+"""
+
+
+KEYLOAD = r"""
+    // C11 loading battery (ring back end): labels, parsers and padding / curve constants of loaded keys, checked by verifying real signatures
+    use rcgen::*;
+    fn unhex(s: &str) -> Vec<u8> { (0..s.len() / 2).map(|i| u8::from_str_radix(&s[2 * i..2 * i + 2], 16).unwrap()).collect() }
+    fn tlv(b: &[u8]) -> (u8, usize, usize) {
+        if b[1] < 0x80 { (b[0], 2, b[1] as usize) } else { let n = (b[1] & 0x7f) as usize; let mut l = 0usize; for k in 0..n { l = (l << 8) | b[2 + k] as usize; } (b[0], 2 + n, l) }
+    }
+    fn split(der: &[u8]) -> (Vec<u8>, Vec<u8>) {
+        let (_, h, _) = tlv(der); let body = &der[h..]; let (_, th, tl) = tlv(body); let tbs = body[..th + tl].to_vec();
+        let rest = &body[th + tl..]; let (_, ah, al) = tlv(rest); let sig = &rest[ah + al..]; let (_, sh, sl) = tlv(sig);
+        (tbs, sig[sh + 1..sh + sl].to_vec())
+    }
+    let algs: Vec<(&'static SignatureAlgorithm, &'static dyn ring::signature::VerificationAlgorithm, &str)> = vec![
+        (&PKCS_ED25519, &ring::signature::ED25519, "ed"), (&PKCS_ECDSA_P256_SHA256, &ring::signature::ECDSA_P256_SHA256_ASN1, "p256"),
+        (&PKCS_ECDSA_P384_SHA384, &ring::signature::ECDSA_P384_SHA384_ASN1, "p384"), (&PKCS_RSA_SHA256, &ring::signature::RSA_PKCS1_2048_8192_SHA256, "rsa"),
+        (&PKCS_RSA_SHA384, &ring::signature::RSA_PKCS1_2048_8192_SHA384, "rsa"), (&PKCS_RSA_SHA512, &ring::signature::RSA_PKCS1_2048_8192_SHA512, "rsa")];
+    let rsa_der = unhex("308204bc020100300d06092a864886f70d0101010500048204a6308204a202010002820101008d24702a7cc875ed578768736bddbca8c4e10201773554e3d1ffd9531cfc8c89e751b2180e97cd56488d89c373a056daebcd541212fcd6eee2426fade0f2d5fa0dbbb017f0b909dce3952d1c379c22da11363c9af4ef924431d1168dd1d033ed3cd00bf35a9dd89f37d9cb906c8519d2ceb6989a9e3410561f104894149525e040fba92ede711594ea362f2cf1fae3703e132fcaea8f88421071758aa67c0e19a401ebaae953849a303135b0da8752d071d9789180cb686a07a7a2a18347c2447f50a4a279cc5744edaa2c391d6e74e348d5c9a4c3d69854c40c0c2097d39ca2de4a8a0fd51e6012336ffbacacb9ef6743d040f6be82439f6ceddf55f0252f7102030100010282010001222305705192c2d86255b8218c5b04b6ea00a05ee2ee7ed2d39d5ce1bd746a7211519f0854f738e365c18eb079bfe0cba66f2fa2f7e548ef47adca656545cb177ba397199f7ec10791cdd62d6b234b817a6043b5464c34207b4795557338cb85a2bd09d3f733035a49352d80759426c172ad68866f301764f1f6473c20137905b70e76602556ce6c8e6b15c096e05e28231ea86c4d5b4a1a9bccfbb2ddabe6d3d7f685beaf50d8b16cfe91277d8957dff91886bbc34a66ab838cc5115183e07614f152d574dcaaee2f7f19a688cfc418980c4021a5267806c55e5b2a2444306ebebe8148081963129a5a7391e7a004e1cbdf5bb360ba7d0d2e2e929f0fde1d02818100be6e03afbe6c73f4b434a3309af78cfea71674210ac13ace5aa4e513fc9734abd8c9b62ecb3fa0d569d13ba455c5031db662d356b1662088ec936d4d8a2c8b41a214d791869fc1278723ec1f3bb156f80a6a9e3f9f14ab86f447125831b273f3f9565fd48f44905faf0e0d4b05bd5ba61349ec3f34dea43f72b25ceb6ebac84502818100bdbdd764512af6a0e2c6bce9e4254a05d617b5af006262a1da1637ed8e1b722d95530788e86a76eb31caa3058f00e707d4a6ed4f19cffaac3e9af10b728f432f26faa94c67b538b19965275779a7910306e45fb95a2194ab27fdd46e487d2eaaca99518035fa335694b7090d71618e090844956170dd3629c6cc1bbf34ae8b3d02818076b336c30e6ca5deeb914003a5251793086ddb97590fd76b175f5f9794c45fc59a8d296d83adb6c0308486abc9f6d3196b3db0c48231c9a7efe779a372b48f5d2afdd8dd52503463423ea70954f916dfe8064b7c16da188d37a9318b1df74185db6ef6af155ac4af8ffbaf578b4d5c5a69fd933056f14cea6bc138605c963b0d0281803d3de624b1f21d1286bfc0bff96c73bcf88244990c95b4e22ac31b2028cb010a67751a2c7d5fc7ac5830e0776dd5cbbc024e32b0625377c45a9ca60a9cda52c4085fc57f2cc6185b72786cbf563bd899528329c668aa08134a602a4dc245ed6720e7659fed4c297fdb964c6cb358da805dd3cd275b477b30f6c2707e41a1c8bd02818041e633b0f153b377511d04aff10e8411a8411360d440ac9a70ebcb489019443bd19900dca466c6d69aa425f8daee2ce2569a8550c077c74d98c55596936bb556f6fb84e0ec51310297a91e13abb73aeaf13eb1bf7e56ab7b33359f62f5244c5b23f4bbbd2a597b6e301fff4e8fba738423af775e9e82eeb32a83d3bfa75a26ee");
+    let docs: Vec<(&str, Vec<u8>, &'static SignatureAlgorithm)> = vec![
+        ("ed", KeyPair::generate_for(&PKCS_ED25519).unwrap().serialize_der(), &PKCS_ED25519),
+        ("p256", KeyPair::generate_for(&PKCS_ECDSA_P256_SHA256).unwrap().serialize_der(), &PKCS_ECDSA_P256_SHA256),
+        ("p384", KeyPair::generate_for(&PKCS_ECDSA_P384_SHA384).unwrap().serialize_der(), &PKCS_ECDSA_P384_SHA384),
+        ("rsa", rsa_der, &PKCS_RSA_SHA256)];
+    let check_signs = |key: &KeyPair, verify: &'static dyn ring::signature::VerificationAlgorithm, what: &str| {
+        let cert = CertificateParams::new(vec!["replay.example".to_string()]).unwrap().self_signed(key).unwrap();
+        let (tbs, sig) = split(cert.der());
+        ring::signature::UnparsedPublicKey::new(verify, key.public_key_raw()).verify(&tbs, &sig)
+            .unwrap_or_else(|_| panic!("{}: a signature made with the loaded key does not verify under the algorithm the key is labelled with", what));
+    };
+    for (family, der, detected) in &docs {
+        // auto-detection, through every entry point
+        let k1 = KeyPair::try_from(der.as_slice()).expect("auto-detection refuses a valid PKCS#8 key");
+        let k2 = KeyPair::try_from(der.clone()).unwrap();
+        let k3 = KeyPair::from_pem(&k1.serialize_pem()).unwrap();
+        for k in [&k1, &k2, &k3] {
+            assert!(k.algorithm() == *detected, "{}: auto-detected algorithm is {:?}, expected {:?}", family, k.algorithm(), detected);
+            assert_eq!(k.serialize_der(), *der, "{}: the stored document is not the input", family);
+            assert_eq!(k.public_key_raw(), k1.public_key_raw());
+        }
+        let verify = algs.iter().find(|a| a.0 == *detected).unwrap().1;
+        check_signs(&k1, verify, family);
+        // explicit algorithm: Ok exactly for the algorithms that fit the key, labelled as requested, signing as labelled
+        for (alg, verify, fam) in &algs {
+            let r = KeyPair::from_pkcs8_der_and_sign_algo(&der.as_slice().into(), alg);
+            let r2 = KeyPair::from_der_and_sign_algo(&rustls_pki_types::PrivateKeyDer::try_from(der.as_slice()).unwrap(), alg);
+            assert_eq!(r.is_ok(), r2.is_ok(), "{}: the two explicit loaders disagree for {:?}", family, alg);
+            if fam == family {
+                let k = r.unwrap_or_else(|e| panic!("{}: loading under the fitting algorithm {:?} fails: {}", family, alg, e));
+                assert!(k.algorithm() == *alg, "{}: loaded under {:?} but labelled {:?}", family, alg, k.algorithm());
+                assert_eq!(k.public_key_raw(), k1.public_key_raw(), "{}: public key changed by explicit loading", family);
+                check_signs(&k, *verify, family);
+            } else {
+                assert!(r.is_err(), "{}: loading under the non-fitting algorithm {:?} succeeds", family, alg);
+            }
+        }
+    }
 """
 
 
@@ -424,6 +485,8 @@ def program(cex: dict) -> str:
         body = CAIMPORT
     if op == "dn-from-name":
         body = FROMNAME
+    if op == "key-load":
+        body = KEYLOAD
     return PRELUDE + "fn main() {\n" + body + "    println!(\"replay-ok\");\n}\n"
 
 
@@ -436,7 +499,7 @@ def replay(doc: dict) -> bool:
         (scratch / "src").mkdir()
         (scratch / "Cargo.toml").write_text(
             '[package]\nname = "mreplay"\nversion = "0.0.0"\nedition = "2021"\n[workspace]\n[dependencies]\n'
-            f'rcgen = {{ path = "{REPO}/rcgen", features = {json.dumps(cex.get("features", []))} }}\ntime = {{ version = "0.3.6", default-features = false }}\nring = "0.17"\n')
+            f'rcgen = {{ path = "{REPO}/rcgen", features = {json.dumps(cex.get("features", []))} }}\ntime = {{ version = "0.3.6", default-features = false }}\nring = "0.17"\nrustls-pki-types = "1"\n')
         shutil.copy(REPO / "Cargo.lock", scratch / "Cargo.lock")
         (scratch / "src" / "main.rs").write_text(src)
         env = dict(os.environ)
